@@ -509,6 +509,7 @@ pub fn run(opts: &Opts) -> Report {
     }
     rep.sample(json!({"value": "i:3", "operator": "or 2 eq:33 gt:5", "expected": true}));
     rep.sample(json!({"store": ["st adddata s0 ~ k0 i:3", "st adddata s0 ~ k0 i:3", "st adddata s0 ~ k1 s:v0"], "query": "st finddata s0 * ge:1", "expected": "0.0"}));
+    crate::fam::data_crafted::run_all(&mut rep);
     rep
 }
 
